@@ -171,6 +171,80 @@ fn reuse_case(st: &mut Stats, seed: u64) {
     }
 }
 
+/// A bind requested when the connection has just ended, or while it is ending, resolves (Closed or `false`): the slot it
+/// inserted after the task's final clean-up must not wait for an answer that can never come.
+fn after_end_case(st: &mut Stats, seed: u64) {
+    use penguin_mux::frame::BindType;
+    st.evaluations += 1;
+    st.engine("SIM", 1);
+    let mut rng = Rng64::new(mix(seed, 0x15E));
+    let cfg = [EpCfg { bind_buf: 0, ..EpCfg::default() }, EpCfg { bind_buf: *rng.pick(&[0usize, 4]), ..EpCfg::default() }];
+    let how = *rng.pick(&["peer-dropped", "local-task-gone"]);
+    let racing = rng.range(0, 3) as usize;
+    let sh = sim::Shared::new(mix(seed, 14), rng.below(4) as u8);
+    let cfg2 = cfg.clone();
+    let end = sim::run(&sh, move |sh| async move {
+        let ([e0, e1], _net) = wl::connect(&sh, [&cfg2[0], &cfg2[1]], [0, 0], [None, None], seed, true);
+        sim::quiesce().await;
+        // requests issued while the connection is going down
+        let mut race = Vec::new();
+        let peer_mux = e1.mux;
+        sh.api(1, 0, Api::MuxDrop);
+        drop(peer_mux);
+        for k in 0..racing {
+            let m = e0.mux.clone();
+            race.push(sim::spawn(&sh, 9100 + k as u64, async move { m.request_bind(b"racing", 10 + k as u16, BindType::Stream).await.map_err(|e| wl::err_name(&e)) }));
+            if how == "local-task-gone" {
+                sim::jitter_yield(&sh).await;
+            }
+        }
+        // the local task returns once the peer's Close has been answered
+        e0.task.await.ok();
+        e1.task.await.ok();
+        let mut results = Vec::new();
+        for h in race {
+            results.push(match tokio::time::timeout(std::time::Duration::from_millis(5), h).await {
+                Ok(Ok(Some(Ok(b)))) => format!("ok:{b}"),
+                Ok(Ok(Some(Err(e)))) => format!("err:{e}"),
+                Ok(_) => "task-failed".into(),
+                Err(_) => "pending".into(),
+            });
+        }
+        // requests issued after the end
+        for k in 0..2u16 {
+            let r = tokio::time::timeout(std::time::Duration::from_millis(5), e0.mux.request_bind(b"late", 20 + k, BindType::Datagram)).await;
+            results.push(match r {
+                Ok(Ok(b)) => format!("ok:{b}"),
+                Ok(Err(e)) => format!("err:{}", wl::err_name(&e)),
+                Err(_) => "pending".into(),
+            });
+        }
+        let left = e0.mux.verif_flow_ids();
+        drop(e0.mux);
+        (results, left)
+    });
+    let log = sh.take_log();
+    let replay = |extra: String| json!({"kind": "c15-after-end", "run_seed": seed, "how": how, "racing": racing, "observed": extra, "trace_tail": sim::render(&log, 60)});
+    match end {
+        sim::RunEnd::Finished((results, left)) => {
+            st.target("binds_requested_around_connection_end", results.len() as u64);
+            st.nontrivial(mix(sh.hash(), results.len() as u64));
+            for (i, r) in results.iter().enumerate() {
+                let ok = r == "err:Closed" || r == "ok:false";
+                if !ok {
+                    let which = if i < racing { "while the connection was ending" } else { "after the connection had ended" };
+                    st.violation(Violation { signature: format!("bind-around-end|{}", if r == "pending" { "never-resolved" } else { "wrong-answer" }), detail: format!("a bind requested {which} resolved `{r}` (expected Closed or false); all results {results:?}"), replay: replay(format!("{results:?}")) });
+                    break;
+                }
+            }
+            // (a slot left in the table of a dead connection is not demanded to be removed: the table goes with the Multiplexor)
+            st.count("slots_left_in_dead_table", left.len() as u64);
+        }
+        sim::RunEnd::Stalled => st.violation(Violation { signature: "stall|after-end".into(), detail: "bind requests around the end of the connection: the run stalled".into(), replay: replay("stalled".into()) }),
+        sim::RunEnd::Panicked(m) => st.inconclusive.push(format!("harness panic in c15 after-end: {m}")),
+    }
+}
+
 pub fn run(p: &Params) -> (Stats, &'static str) {
     std::panic::set_hook(Box::new(|_| {}));
     sim::install_observer();
@@ -179,7 +253,9 @@ pub fn run(p: &Params) -> (Stats, &'static str) {
     let n = p.share(if p.tier_thorough { SPEC.runs_thorough } else { SPEC.runs_quick });
     for i in 0..n {
         let seed = mix(base, i);
-        if i % 4 == 3 {
+        if i % 8 == 5 {
+            after_end_case(&mut st, seed);
+        } else if i % 4 == 3 {
             reuse_case(&mut st, seed);
         } else {
             general_case(&mut st, seed);
